@@ -242,6 +242,7 @@ class Concatenate(Contract):
                 want = Arr(va.n + vb.n, va.elem, lambda kk, _a=va, _b=vb: z3.If(kk < _a.n, _a.at(kk), _b.at(kk - _a.n)), "want")
                 p.prove(arr_eq_goal(got, want), f"{q}:C16:C10:{k} == concat(parts.{k}) in list order")
         p.prove(z3.BoolVal(r.f.get("parameters") is a.f["parameters"]), f"{q}:C16:parameters of the parts")
+        p.prove(z3.BoolVal(dtype_carried(r.f.get("dtype"), a.f["dtype"])), f"{q}:C15:C16:the merged set is built with the dtype of the parts (precision kept)")
         # parts agree (otherwise ValueError was raised): namespace, dtype, parameters equal
         p.prove(z3.And(a.f["xp"].e == b.f["xp"].e, a.f["dtype"].e == b.f["dtype"].e, a.f["parameters"].e == b.f["parameters"].e),
                 f"{q}:C16:returns only when parameters, namespace and dtype of the parts agree")
